@@ -10,6 +10,7 @@ from ...schema import (
     EnumType,
     GraphQLType,
     InputObjectType,
+    ListType,
     NonNullType,
     ScalarType,
     unwrap_type,
@@ -97,6 +98,14 @@ class ValuesOfCorrectTypeChecker(ValidationVisitor):
                 input_type.get_value(node.value)
             except UnknownEnumValue:
                 self._report_bad_value(input_type, node)
+
+    def enter_list_value(self, node):
+        # The type info visitor has already pushed the item type.
+        list_type = self.type_info.enclosing_input_type
+        if isinstance(list_type, NonNullType):
+            list_type = list_type.type
+        if list_type is not None and not isinstance(list_type, ListType):
+            self._check_scalar(node)
 
     def enter_object_value(self, node):
         named_type = (
